@@ -1,8 +1,81 @@
+/-
+C16 — proved counter-examples (clauses the unchanged tree violates).
+
+1. The same-directive comparator of `sortRoutes` is not a strict weak order: incomparability
+   is not transitive (`/a` ~ "matcher without a path" ~ `/abc`, yet `/abc` sorts before `/a`).
+   Harmless for ONE insertion sort (the theorems of `Props.lean` hold for an arbitrary
+   relation), but:
+2. above 20 values `sort.SliceStable` insertion-sorts blocks of 20 and merges them, and then
+   the relative order of same-directive routes depends on where OTHER directives sit:
+   cross-kind order-insensitivity fails for the code as it is.  Witness: 18 `header` routes
+   and three `respond` routes; moving the last `header` line behind the `respond` lines
+   changes `respond /abc, respond /a, respond @m` into `respond /a, respond @m, respond /abc`
+   (a request `GET /abc` is answered by a different route).  Reproduced on the real adapter
+   (`witnessLines`, replayed on every run; known finding `order-dependent-output:over-20-routes`).
+-/
+import CaddyModel.C16.Spec
 import CaddyModel.C16.Stable
 
 namespace CaddyModel.C16
 
-/-- counter-example lines replayed on the implementation on every run -/
-def witnessLines : List String := []
+/-- `respond /a` -/
+def wZ : RouteVal := ⟨"respond", true, 1, [str "/a"]⟩
+/-- `respond @m` with `@m method GET`: one matcher set, no path -/
+def wX : RouteVal := ⟨"respond", true, 1, []⟩
+/-- `respond /abc` -/
+def wY : RouteVal := ⟨"respond", true, 1, [str "/abc"]⟩
+/-- `header X-k v` -/
+def wH : RouteVal := ⟨"header", true, 0, []⟩
+
+def incomparable (a b : RouteVal) : Bool := !sameDirLess a b && !sameDirLess b a
+
+/-- FULL (expected of a sort comparator): incomparability under `sameDirLess` is transitive.
+It is not. -/
+theorem sameDirLess_not_strict_weak_order :
+    ∃ a b c : RouteVal, a.dir = b.dir ∧ b.dir = c.dir ∧
+      incomparable a b = true ∧ incomparable b c = true ∧ sameDirLess c a = true :=
+  ⟨wZ, wX, wY, by decide⟩
+
+/-- the written order: 18 × header, respond /a, respond @m, respond /abc -/
+def wA : List RouteVal := List.replicate 18 wH ++ [wZ, wX, wY]
+/-- the last header line moved behind the respond lines -/
+def wB : List RouteVal := List.replicate 17 wH ++ [wZ, wX, wY] ++ [wH]
+
+/-- a decidable sufficient condition for `SameKindSubsequences` -/
+def sameKindSubseqB (order : List String) (l l' : List RouteVal) : Bool :=
+  ((l ++ l').map (kindOf order)).all fun c =>
+    l.filter (fun x => kindOf order x == c) == l'.filter (fun x => kindOf order x == c)
+
+theorem sameKindSubsequences_of_check (order : List String) (l l' : List RouteVal)
+    (h : sameKindSubseqB order l l' = true) : SameKindSubsequences order l l' := by
+  intro c
+  by_cases hc : c ∈ (l ++ l').map (kindOf order)
+  · have := (List.all_eq_true.1 h) c hc
+    simpa using this
+  · have nil : ∀ (m : List RouteVal), (∀ y ∈ m, y ∈ l ++ l') → m.filter (fun y => kindOf order y == c) = [] := by
+      intro m hm
+      rw [List.filter_eq_nil_iff]
+      intro y hy hk
+      exact hc (List.mem_map.2 ⟨y, hm y hy, by simpa using hk⟩)
+    rw [nil l (fun y hy => List.mem_append.2 (Or.inl hy)), nil l' (fun y hy => List.mem_append.2 (Or.inr hy))]
+
+/-- FULL STATEMENT of the order-insensitivity clause for the sorter:
+`∀ order l l', SameKindSubsequences order l l' → sortRoutes (less order) l = sortRoutes (less order) l'`.
+Its negation, on the model of `sort.SliceStable` (`stable_func` + `symMerge_func`): -/
+theorem sort_cross_kind_invariant_full_fails :
+    ∃ (order : List String) (l l' : List RouteVal),
+      SameKindSubsequences order l l' ∧ sortRoutes (less order) l ≠ sortRoutes (less order) l' :=
+  ⟨Gen.defaultDirectiveOrder, wA, wB,
+    sameKindSubsequences_of_check _ _ _ (by decide), by decide⟩
+
+/-- what the two orders sort to -/
+example : sortRoutes (less Gen.defaultDirectiveOrder) wA = List.replicate 18 wH ++ [wY, wZ, wX] := by decide
+example : sortRoutes (less Gen.defaultDirectiveOrder) wB = List.replicate 18 wH ++ [wZ, wX, wY] := by decide
+
+/-- protocol lines of the counter-example, replayed on the implementation on every run:
+the two site blocks through the whole adapter (`eqv`: the JSON must not differ — it does). -/
+def witnessLines : List String := [
+  "eqv 3a38303830207b0a09406d206d6574686f64204745540a0968656164657220582d3120760a0968656164657220582d3220760a0968656164657220582d3320760a0968656164657220582d3420760a0968656164657220582d3520760a0968656164657220582d3620760a0968656164657220582d3720760a0968656164657220582d3820760a0968656164657220582d3920760a0968656164657220582d313020760a0968656164657220582d313120760a0968656164657220582d313220760a0968656164657220582d313320760a0968656164657220582d313420760a0968656164657220582d313520760a0968656164657220582d313620760a0968656164657220582d313720760a0968656164657220582d313820760a09726573706f6e64202f6120227a220a09726573706f6e6420406d202278220a09726573706f6e64202f616263202279220a7d0a 3a38303830207b0a09406d206d6574686f64204745540a0968656164657220582d3120760a0968656164657220582d3220760a0968656164657220582d3320760a0968656164657220582d3420760a0968656164657220582d3520760a0968656164657220582d3620760a0968656164657220582d3720760a0968656164657220582d3820760a0968656164657220582d3920760a0968656164657220582d313020760a0968656164657220582d313120760a0968656164657220582d313220760a0968656164657220582d313320760a0968656164657220582d313420760a0968656164657220582d313520760a0968656164657220582d313620760a0968656164657220582d313720760a09726573706f6e64202f6120227a220a09726573706f6e6420406d202278220a09726573706f6e64202f616263202279220a0968656164657220582d313820760a7d0a"
+]
 
 end CaddyModel.C16
